@@ -1,6 +1,7 @@
 package c20
 
 import (
+	"math/big"
 	"sort"
 
 	"github.com/zclconf/go-cty/cty"
@@ -39,8 +40,46 @@ func valueOpts(r *core.Rand) gen.ValueOpts {
 // attribute names included), unknown / refined unknown / null parts, marks on
 // some.
 func genValue(r *core.Rand) cty.Value {
+	if r.Chance(1, 25) {
+		return tieSet(r)
+	}
 	ty := genType(r, 1+r.Intn(3))
 	return genValueOf(r, ty)
+}
+
+// tieSet: a set of numbers (bare, or inside a list / object) that holds members which the canonical order cannot
+// tell apart although they are different members: one exact value held at two precisions, whose shortest decimal
+// texts differ (float64(0.1) at 53 and at 512 bits; float32(0.1) at 24 and at 53 bits). They sit in different hash
+// buckets and compare neither less nor greater, so their relative position is decided by whatever order the
+// buckets are visited in - which must be the same every time. (The shared generators keep such pairs out of sets
+// because of known finding F-47; purity and immutability have to hold for them all the same.)
+func tieSet(r *core.Rand) cty.Value {
+	fs := []float64{0.1, 0.3, 1e-7, 123.456, 0.7, 2.2, 1.1, 5e-324}
+	var ms []cty.Value
+	for k, n := 0, 1+r.Intn(3); k < n; k++ {
+		f := fs[r.Intn(len(fs))]
+		if r.Chance(1, 4) {
+			f32 := float64(float32(f))
+			ms = append(ms, cty.NumberVal(new(big.Float).SetPrec(24).SetFloat64(f32)), cty.NumberFloatVal(f32))
+		} else {
+			ms = append(ms, cty.NumberFloatVal(f), cty.NumberFloatVal(f).Add(cty.MustParseNumberVal("0")))
+		}
+	}
+	for k, n := 0, r.Intn(4); k < n; k++ {
+		ms = append(ms, cty.NumberIntVal(int64(r.Intn(7)-3)))
+	}
+	for i := len(ms) - 1; i > 0; i-- {
+		j := r.Intn(i + 1)
+		ms[i], ms[j] = ms[j], ms[i]
+	}
+	set := cty.SetVal(ms)
+	switch r.Intn(4) {
+	case 0:
+		return cty.ListVal([]cty.Value{set, cty.SetVal(ms[:1])})
+	case 1:
+		return cty.ObjectVal(map[string]cty.Value{"a": set, "b": cty.StringVal("x")})
+	}
+	return set
 }
 
 func genValueOf(r *core.Rand, ty cty.Type) cty.Value {
